@@ -1,4 +1,5 @@
 """C11 — execution-strategy arguments never change results."""
+import os, pathlib
 import operator, tempfile, shutil
 from collections import OrderedDict
 from .. import lean, proto, gen, util
@@ -59,9 +60,17 @@ def operators(etl):
     return ops
 
 
+import datetime as _dt
+# key pools: the usual mix; and dates next to datetimes of the same instant (ordered by type name, never tied), with a time
+KEY_POOLS = [[1, 2, 3, None, 'a'], [1, 2, 3, None, 'a'],
+             [_dt.date(2020, 1, 1), _dt.datetime(2020, 1, 1), _dt.date(2020, 1, 2), _dt.datetime(2020, 1, 2), None, _dt.datetime(2019, 12, 31, 23, 59)],
+             [1, 1.0, True, 2, b'a', 'a', (1, 'a')]]
+
+
 def mk_table(rng, names=('k', 'v')):
     n = rng.choice([0, 1, 2, 3, 4, 5])
-    return [list(names)] + [[rng.choice([1, 2, 3, None, 'a']), rng.choice([1, 2, 5, 7])] for _ in range(n)]
+    pool = rng.choice(KEY_POOLS)
+    return [list(names)] + [[rng.choice(pool), rng.choice([1, 2, 5, 7])] for _ in range(n)]
 
 
 def run(ctx):
@@ -120,7 +129,7 @@ def run(ctx):
                                       {'op': name, 'tables': repr(tabs), 'args': repr(kw), 'default': default, 'got': out})
                 for bs in [None] + list(range(1, nmax + 2)):
                     for cache in (True, False):
-                        for td in (None, tmpd):
+                        for td in (None, tmpd, os.fsencode(tmpd) if (bs or 0) % 2 else pathlib.Path(tmpd)):
                             kw = {'buffersize': bs, 'cache': cache, 'tempdir': td}
                             if name.startswith(('recordcomplement', 'recorddiff')) or True:
                                 check(kw, 'buffersize/cache/tempdir')
